@@ -297,8 +297,9 @@ def check(model, rep):
     statics_table(model, rep, robot, 'R06.3')
     rjb = M(robot, 'jacobianBody')
     r = returns_of(rjb)
-    ok = len(r) == 1 and src(r[0].value).replace(' ', '') == 'self._end_effector_pos_global.inv().adjoint()@self.jacobian(*args,**kwargs)'
-    rep.ob('R06.3', rjb, 'Ad(inv(tool pose)) @ jacobian', ok, 'generic body Jacobian is %s' % (src(r[0].value) if r else '?'))
+    got_rjb = Inliner(rjb).text(r[0].value, canon=False) if len(r) == 1 else '?'        # temporaries resolved
+    ok = got_rjb == 'self._end_effector_pos_global.inv().adjoint()@self.jacobian(*args,**kwargs)'
+    rep.ob('R06.3', rjb, 'Ad(inv(tool pose)) @ jacobian', ok, 'generic body Jacobian is %s' % got_rjb)
 
     # ---------------------------------------------------------------- R06.4
     rep.rule('R06.4', 'link-mass statics: one index i for cg / mass / joint pose / prefix Jacobian, one makeWrench per iteration, '
